@@ -29,7 +29,7 @@ ENTRY = {
     ],
 }
 MANIFEST = {
-    "text": "Lean theorems over the executable model of the --update-all printer (one payload per document, each spliced from its own snapshot, counter = accepted diffs): for any run in which every file has one payload the property holds in full — each file becomes spliceAll(old, accepted), accepted = announced minus those starting before the end of an earlier accepted one, 'Applied N' = number of edits present, exactly the files with an accepted edit are written, all others untouched (update_single_payload, update_one_payload_per_file). For files with several document payloads (HTML host + <script>/<style>) the full statement is refuted by a concrete witness (multi_payload_counterexample: both edits counted, the last write wins over the ORIGINAL text) and the exact behaviour is proved instead (update_multi_payload_partial: last writer wins, counter sums all; update_multi_payload_single_active: the property holds when only one document proposes fixes). Tied to the code by the hook on InteractivePrinter::process on temp files and by real CLI runs (`run -p -r`/`scan` with --json=stream, then -U on a copy; several rules per file, overlapping fixes, expandEnd, HTML with host + script + style fixes): model prediction = observed files/count/written set, and the property itself is checked against the announced edits.",
-    "note": "KNOWN FINDING (H13): a file with >=2 document payloads each having an accepted edit keeps only the last document's edits while all are counted. Trusted: Lean kernel + 3 axioms, harness/driver/check.py glue, OS file system.",
+    "text": "Lean theorems over the executable model of the --update-all printer (one payload per document, each spliced from its own snapshot, counter = accepted diffs): for any run in which every file has one payload the property holds in full — each file becomes spliceAll(old, accepted), accepted = announced minus those starting before the end of an earlier accepted one, 'Applied N' = number of edits present, exactly the files with an accepted edit are written, all others untouched (update_single_payload, update_one_payload_per_file). For files with several document payloads (HTML host + <script>/<style>) the current code (fix fad81bd: the edits of all documents of a file are merged, filtered once and spliced into one text) satisfies the full statement: update_multi_payload_fixed (file = spliceAll(old, accepted over all documents), counter = number of edits present, written set = files with an accepted edit), with multi_payload_fixed_witness for non-vacuity. The pinned v0.37.0 behaviour is kept as regression theorems: multi_payload_counterexample (both edits counted, the last write wins over the ORIGINAL text), update_multi_payload_partial, update_multi_payload_single_active. Tied to the code by the hook on InteractivePrinter::process on temp files and by real CLI runs (`run -p -r`/`scan` with --json=stream, then -U on a copy; several rules per file, overlapping fixes, expandEnd, HTML with host + script + style fixes): model prediction = observed files/count/written set, and the property itself is checked against the announced edits.",
+    "note": "Finding H13 (a file with >=2 document payloads each having an accepted edit kept only the last document's edits while all were counted) is repaired in /repo (fix: fad81bd) and the driver replays the repaired model. Trusted: Lean kernel + 3 axioms, harness/driver/check.py glue, OS file system.",
     "technique": "Lean 4 proof over hand-written executable state machine + counter-example by evaluation + differential correspondence (hook and real CLI end to end) + property oracle on announced vs written bytes",
 }
